@@ -75,7 +75,7 @@ def build(base):
 BAD_METHODS = [b'get', b'G\x00T', b'', b'GE T', b'A' * 30, b'GET\t', b'@#!', b'\xffGET', b'G\\x45T', b'(GET)', b'GET:']
 BAD_VERSIONS = [b'HTTP/1.x', b'HTTP/2.0', b'HTTP/0.9', b'HTTP/11.1', b'HTTP/1', b'HTTQ/1.1', b'http/1.1', b'', b'HTTP/1.15',
                 b'HTTP/-1.1', b'HTTP/1.1 x', b'HTTP/3.0', b'HTTP/1,1', b'HTTP/1.1\\r\\nX-Inj: y', b'HTTP/\\u0661.1', b'HTTP/1.1\x00',
-                b'HTTP/9.9', b'HTTP/12.34']
+                b'HTTP/9.9', b'HTTP/12.34', b'HTTP/0.1111', b'HTTP/0.9', b'HTTP/00.5', b'HTTP/1.000']
 BIG = [1000, 8200, 70000]
 BAD_TARGETS = [b'/#frag', b'noslash', b'*', b'/a b', b'http://[::1/', b'/%zz', b'/%', b'/../../etc/passwd', b'//', b'/\\x',
                b'/\\u12', b'/\\N{x}', b'/\\', b'/a\\r\\nb', b'/\\x00', b'http://a:xyz/', b'/\xff\xfe', b'/\xc3\xa9', b'?', b'/?a=b#c',
